@@ -67,6 +67,12 @@ def main():
         tail = (log if rc != 0 else proof['log'])
         errs = [l for l in tail.splitlines() if 'Error' in l or 'File "' in l]
         ctx.broken_tie('proof', 'Props/%s.vo' % prop, '\n'.join(errs[-12:]) + '\n---\n' + tail[-1500:])
+    # the development declares no axiom and switches off no kernel check (tools/audit.py)
+    import subprocess
+    aud = subprocess.run([sys.executable, os.path.join(common.VERIF, 'tools', 'audit.py')], capture_output=True, text=True)
+    if aud.returncode != 0:
+        ctx.broken_tie('proof', 'audit', aud.stdout[-2000:])
+    ctx.extra['audit'] = aud.stdout.splitlines()[0] if aud.stdout else ''
     ctx.model_runnable = common.models_built(getattr(mod, 'MODEL_TARGETS', []))
     ctx.stage('build+props')
 
